@@ -113,6 +113,8 @@ def length_of(eng, st, v):
             return VInt(len(o.f["items"]))
         if o.kind == "cset":
             return VInt(len(o.f["items"]))
+        if o.kind == "slist":
+            return VInt(simp(z3.Length(o.f["e"])))
     raise Unsupported(f"len of {v}")
 
 
@@ -783,6 +785,10 @@ def getattr_(eng, st, v, name):
             return bmeth(name, v, DICT_METHODS[name]) if name in DICT_METHODS else _unsup(f"dict.{name}")
         if o.kind == "cset":
             return bmeth(name, v, CSET_METHODS[name]) if name in CSET_METHODS else _unsup(f"set.{name}")
+        if o.kind == "slist":
+            return bmeth(name, v, SLIST_METHODS[name]) if name in SLIST_METHODS else _unsup(f"list.{name} (symbolic list)")
+        if o.kind == "sset":
+            return bmeth(name, v, SSET_METHODS[name]) if name in SSET_METHODS else _unsup(f"set.{name} (symbolic set)")
         if o.kind in ("inst", "msg", "cell"):
             if name in o.f:
                 return o.f[name]
@@ -905,6 +911,12 @@ def m_bytes_hex(eng, st, recv, args, kwargs):
 def m_bytes_join(eng, st, recv, args, kwargs):
     sep = simp(recv.e)
     items = args[0]
+    io = heap_obj(st, items)
+    if io is not None and io.kind == "slist":
+        from .heapmodel import joinb_f
+        if not (z3.is_app(sep) and sep.decl().kind() == z3.Z3_OP_SEQ_EMPTY):
+            raise Unsupported("join of a symbolic list with a non-empty separator")
+        return ok(st, VBytes(joinb_f(io.f["e"])))
     if isinstance(items, VSeq):
         raise Unsupported("join over symbolic-length sequence")
     parts = eng.iter_concrete(items, st)
@@ -1094,6 +1106,50 @@ def m_cset_clear(eng, st, recv, args, kwargs):
 CSET_METHODS = {"add": m_cset_add, "discard": m_cset_discard, "copy": m_cset_copy, "clear": m_cset_clear}
 
 SEQ_METHODS = {}
+
+
+def m_slist_append(eng, st, recv, args, kwargs):
+    """append on a symbolic-length list; for lists of bytes also records the defining fact of b"".join."""
+    from .heapmodel import joinb_f
+    o = st.heap[recv.oid]
+    x = encode_elem(eng, st, eng.devalue(args[0], st), o.f["elem"])
+    old = o.f["e"]
+    new = simp(z3.Concat(old, z3.Unit(x)))
+    if o.f["elem"].head == "bytes":
+        st.assume(joinb_f(new) == z3.Concat(joinb_f(old), x))      # definition of join, instantiated here
+    o.f["e"] = new
+    return ok(st, VNone)
+
+
+SLIST_METHODS = {"append": m_slist_append}
+
+
+def m_sset_add(eng, st, recv, args, kwargs):
+    from .heapmodel import box
+    o = st.heap[recv.oid]
+    o.f["e"] = z3.SetAdd(o.f["e"], box(eng, st, args[0]))
+    return ok(st, VNone)
+
+
+def m_sset_discard(eng, st, recv, args, kwargs):
+    from .heapmodel import box
+    o = st.heap[recv.oid]
+    o.f["e"] = z3.SetDel(o.f["e"], box(eng, st, args[0]))
+    return ok(st, VNone)
+
+
+def m_sset_clear(eng, st, recv, args, kwargs):
+    o = st.heap[recv.oid]
+    o.f["e"] = z3.EmptySet(ObjS)
+    return ok(st, VNone)
+
+
+def m_sset_copy(eng, st, recv, args, kwargs):
+    o = st.heap[recv.oid]
+    return ok(st, VRef(st.alloc(HObj("sset", None, {"e": o.f["e"], "kind": o.f.get("kind")}))))
+
+
+SSET_METHODS = {"add": m_sset_add, "discard": m_sset_discard, "clear": m_sset_clear, "copy": m_sset_copy}
 
 
 # ---------------------------------------------------------------------------
